@@ -1,13 +1,85 @@
-(* C16 - the concatenator is total on arbitrary bytes.  Property theorems only. *)
+(* C16 - the concatenator is total on arbitrary bytes.  Property theorems only; every proof is
+   `exact <lemma>`.  The model (model/Concat.v) is the repaired src/concat/mod.rs; the witnesses
+   against the code as it was before the repairs are in proofs/Concat_findings.v. *)
 From Coq Require Import NArith List.
-From V Require Import lib.Words model.Concat model.ConcatRun spec.ConcatSpec proofs.Concat_proofs.
+From V Require Import lib.Words model.Concat model.ConcatRun spec.ConcatSpec proofs.Concat_proofs proofs.Concat_inv proofs.Concat_findings.
 Import ListNotations.
 Open Scope N_scope.
 
-(* All 65 536 two-byte prefixes: the window-size parser of the concatenator agrees with the
-   RFC 7932 section 9.1 WBITS reader (with the large-window extension), on the value and on the
-   number of bits, and rejects exactly what the RFC reader rejects. *)
+(* Every state satisfying the invariant, every input buffer (of bytes), every cursor position,
+   every output buffer: `stream` does not panic, keeps both cursors inside the buffers, leaves the
+   output buffer's length alone, re-establishes the invariant, never answers Success, answers
+   NeedsMoreInput only with the input consumed and NeedsMoreOutput only with the output full, and
+   - given input and output room - moves a cursor whenever it asks for more. *)
+Theorem C16_total : forall s input in_off out off,
+  Inv s -> Started s -> bytes_ok input -> bytes_ok out -> in_off <= lenN input -> off <= lenN out ->
+  match stream s input in_off out off with
+  | Panic => False
+  | Val r =>
+      Inv (r_s r) /\ Started (r_s r) /\
+      in_off <= r_in r /\ r_in r <= lenN input /\ off <= r_off r /\ r_off r <= lenN out /\
+      lenN (r_out r) = lenN out /\ bytes_ok (r_out r) /\
+      r_rc r <> Success /\
+      (r_rc r = NeedsMoreInput -> r_in r = lenN input) /\
+      (r_rc r = NeedsMoreOutput -> r_off r = lenN out) /\
+      (r_rc r = NeedsMoreInput \/ r_rc r = NeedsMoreOutput -> off < lenN out -> in_off < lenN input ->
+         in_off < r_in r \/ off < r_off r)
+  end.
+Proof. exact stream_total_inv. Qed.
+Print Assumptions C16_total.
+
+(* `finish`: no panic, cursor inside the buffer, Success or NeedsMoreOutput only, NeedsMoreOutput
+   only with the output full, progress whenever there is room. *)
+Theorem C16_finish : forall s out off, Inv s -> bytes_ok out -> off <= lenN out ->
+  match finish s out off with
+  | Panic => False
+  | Val f =>
+      Inv (f_s f) /\ new_stream_pending (f_s f) = new_stream_pending s /\ window_size (f_s f) = window_size s /\
+      off <= f_off f /\ f_off f <= lenN out /\ lenN (f_out f) = lenN out /\ bytes_ok (f_out f) /\
+      (f_rc f = Success \/ f_rc f = NeedsMoreOutput) /\
+      (f_rc f = NeedsMoreOutput -> f_off f = lenN out) /\
+      (off < lenN out -> f_rc f = Success \/ off < f_off f)
+  end.
+Proof. exact finish_total_inv. Qed.
+Print Assumptions C16_finish.
+
+Theorem C16_new_file : forall s, Inv s -> Inv (new_brotli_file s) /\ Started (new_brotli_file s).
+Proof. exact Inv_new_brotli_file. Qed.
+Print Assumptions C16_new_file.
+
+(* the invariant holds initially, for every supported window override, and survives save/restore *)
+Theorem C16_reach_new : Inv bc_new.
+Proof. exact Inv_new. Qed.
+Print Assumptions C16_reach_new.
+
+Theorem C16_reach_window : forall w, 10 <= w -> w <= 30 ->
+  exists s, new_with_window_size w = Val s /\ Inv s /\ Started s.
+Proof. exact Inv_new_with_window_size. Qed.
+Print Assumptions C16_reach_window.
+
+Theorem C16_reach_restore : forall s, Inv s -> nat_restore s = Val s.
+Proof. exact Inv_restore. Qed.
+Print Assumptions C16_reach_restore.
+
+(* All 65 536 two-byte prefixes: the window-size parser agrees with the RFC 7932 section 9.1
+   WBITS reader (with the large-window extension) on value, width and rejection. *)
 Theorem C16_parse : forall b0 b1 rest, b0 < 256 -> b1 < 256 ->
   parse_window_size (b0 :: b1 :: rest) = Val (rfc_wbits (b0 + 256 * b1)).
 Proof. exact parse_window_size_rfc. Qed.
 Print Assumptions C16_parse.
+
+(* The code before the repair bc0b749 violated the property: a protocol-following call sequence
+   over valid members panics (replayed on the real code; fixed, see known_findings.json). *)
+Theorem C16_total_refuted_before_fix :
+  rr_final (run_orig 100 [64] false false [] t_meta3 (o_init None)) = Panicked.
+Proof. exact C16_total_refuted_orig. Qed.
+Print Assumptions C16_total_refuted_before_fix.
+
+(* Non-vacuity: a non-trivial state (mid-way through emitting a realigned header) meets the hypotheses *)
+Example C16_hypotheses_satisfiable :
+  Inv example_state /\ Started example_state /\
+  match stream example_state [7; 8; 9] 0 [0; 0] 0 with
+  | Val r => r_rc r = NeedsMoreOutput /\ r_off r = 2 /\ r_in r = 0
+  | Panic => False
+  end.
+Proof. exact example_state_ok. Qed.
